@@ -316,7 +316,11 @@ def _setup_live(servertype):
         # sockets with a timeout take the non-blocking code paths of the transport (stimulus only: 30 s is never reached)
         _live["scope"] = live.ConfigScope(COMMTIMEOUT=_live["commtimeout"])
         _live["scope"].__enter__()
-    s = live.Served(servertype)
+    if _live.get("unix"):
+        _live["unix_path"] = live.unix_socket_path()       # the same daemon behind a Unix domain socket
+        s = live.Served(servertype, unixsocket=_live["unix_path"])
+    else:
+        s = live.Served(servertype)
     s.daemon.register(_echo_class()(), "echo")
     _live["served"] = s
     _live["proxies"] = {}
@@ -334,6 +338,10 @@ def _teardown_live():
         _live["served"].stop()
         if _live.get("scope") is not None:
             _live["scope"].__exit__()
+        if _live.get("unix_path"):
+            import os
+            import shutil
+            shutil.rmtree(os.path.dirname(_live["unix_path"]), ignore_errors=True)
         _live.clear()
 
 
@@ -541,7 +549,7 @@ def _labels(case):
 
 def SHARDS(tier):
     sh = [{"layer": 1, "ser": s} for s in SERS] + [{"layer": 1, "ser": s} for s in SERS]
-    sh += [{"layer": 2, "ser": s, "servertype": t, "commtimeout": 30.0 if (i + j) % 2 else 0.0}
+    sh += [{"layer": 2, "ser": s, "servertype": t, "commtimeout": 30.0 if (i + j) % 2 else 0.0, "unix": (i + 2 * j) % 4 == 3}
            for i, s in enumerate(SERS) for j, t in enumerate(("thread", "multiplex"))]
     sh += [{"layer": 3, "servertype": "thread", "sers": ["msgpack", "msgpack", "msgpack"]}, {"layer": 3, "servertype": "thread", "sers": ["serpent", "json", "marshal", "msgpack"]}]
     return sh
@@ -569,12 +577,13 @@ def run(ctx):
         _live["keep"] = True
         _live["servertype"] = sh["servertype"]
         _live["commtimeout"] = sh.get("commtimeout", 0.0)
+        _live["unix"] = bool(sh.get("unix"))
         try:
             def rc(case):
                 case = dict(case, servertype=sh["servertype"])
                 return run_l2(case)
             ctx.search(l2_case(sh["ser"]), rc, ctx.n(250, 4000), nontrivial=_nontrivial,
-                       labels=lambda c: _labels(c) + ["server:" + sh["servertype"]] + (["commtimeout-set"] if sh.get("commtimeout") else []), name="l2" + sh["ser"])
+                       labels=lambda c: _labels(c) + ["server:" + sh["servertype"]] + (["commtimeout-set"] if sh.get("commtimeout") else []) + (["unix-socket"] if sh.get("unix") else []), name="l2" + sh["ser"])
         finally:
             _live["keep"] = False
             _teardown_live()
